@@ -151,15 +151,20 @@ class DigestedCredentials:
         algo = self.fields.get("algorithm", b"md5").lower()
         qop = self.fields.get("qop", b"auth")
 
-        expected = calcResponse(
-            calcHA1(algo, self.username, self.realm, password, nonce, cnonce),
-            calcHA2(algo, self.method, uri, qop, None),
-            algo,
-            nonce,
-            nc,
-            cnonce,
-            qop,
-        )
+        try:
+            expected = calcResponse(
+                calcHA1(algo, self.username, self.realm, password, nonce, cnonce),
+                calcHA2(algo, self.method, uri, qop, None),
+                algo,
+                nonce,
+                nc,
+                cnonce,
+                qop,
+            )
+        except (KeyError, TypeError):
+            # The response lacks a field its algorithm or qop needs, or names
+            # an algorithm or qop that is not supported: it cannot match.
+            return False
 
         return expected == response
 
@@ -179,15 +184,19 @@ class DigestedCredentials:
         algo = self.fields.get("algorithm", b"md5").lower()
         qop = self.fields.get("qop", b"auth")
 
-        expected = calcResponse(
-            calcHA1(algo, None, None, None, nonce, cnonce, preHA1=digestHash),
-            calcHA2(algo, self.method, uri, qop, None),
-            algo,
-            nonce,
-            nc,
-            cnonce,
-            qop,
-        )
+        try:
+            expected = calcResponse(
+                calcHA1(algo, None, None, None, nonce, cnonce, preHA1=digestHash),
+                calcHA2(algo, self.method, uri, qop, None),
+                algo,
+                nonce,
+                nc,
+                cnonce,
+                qop,
+            )
+        except (KeyError, TypeError):
+            # See checkPassword.
+            return False
 
         return expected == response
 
